@@ -14,21 +14,29 @@ var (
 	profC04 = eng.ProfileFull("C04", map[string]int{"retire": 8, "send": 10, "take": 9, "buy": 10})
 	profC06 = eng.ProfileFull("C06", map[string]int{"sell": 14, "updSell": 12, "cancelSell": 6, "buy": 14, "block": 12, "removeDenom": 2, "addDenom": 2})
 	profC03 = eng.ProfileFull("C03", map[string]int{"sendFromPool": 3, "burnRegen": 2, "buy": 12, "sell": 10, "bankSend": 5})
-	profC05 = eng.ProfileFull("C05", map[string]int{"put": 16, "take": 14, "bankSend": 8, "basketCreate": 5, "createBatch": 8})
-	profC13 = eng.ProfileFull("C13", map[string]int{"createBatch": 9, "mint": 9, "bridgeReceive": 12, "bridge": 9, "addBridgeChain": 3, "removeBridgeChain": 2})
+	profC05 = withPrelude(eng.ProfileFull("C05", map[string]int{"put": 16, "take": 14, "bankSend": 8, "basketCreate": 5, "createBatch": 8}),
+		"createClass", "createProject", "createBatch", "createBatch", "basketCreate", "basketCreate", "put", "put", "put", "bankSend", "block")
+	profC13 = withPrelude(eng.ProfileFull("C13", map[string]int{"createBatch": 9, "mint": 9, "bridgeReceive": 12, "bridge": 9, "addBridgeChain": 3, "removeBridgeChain": 2}),
+		"createClass", "addBridgeChain", "bridgeReceive", "bridgeReceive", "createProject", "createBatch", "mint", "bridge", "block")
 	profC14 = func() *eng.Profile {
 		p := eng.ProfileFull("C14", map[string]int{"createClass": 9, "createProject": 9, "createBatch": 10, "bridgeReceive": 6, "basketCreate": 5, "addCreditType": 2})
 		p.PrefixIDs = true
 		return p
 	}()
 	profC07 = eng.ProfileFull("C07", map[string]int{"sell": 14, "buy": 22, "setFeeParams": 5, "updSell": 6, "addDenom": 3, "faucet": 2, "put": 3, "take": 3})
-	profC11 = eng.ProfileFull("C11", map[string]int{"put": 20, "take": 16, "basketCreate": 7, "updDateCriteria": 4, "createBatch": 12, "block": 10, "bankSend": 4})
+	profC11 = withPrelude(eng.ProfileFull("C11", map[string]int{"put": 20, "take": 16, "basketCreate": 7, "updDateCriteria": 4, "createBatch": 12, "block": 10, "bankSend": 4}),
+		"createClass", "createProject", "createBatch", "createBatch", "createBatch", "basketCreate", "put", "put", "put", "take", "block")
 	profC08 = eng.ProfileFull("C08", map[string]int{"updClassAdmin": 6, "updClassIssuers": 6, "updClassMeta": 4, "updProjectAdmin": 5, "updProjectMeta": 4, "updBatchMeta": 5,
 		"seal": 4, "mint": 6, "updCurator": 5, "setAllowlist": 3, "addCreator": 3, "removeCreator": 3, "createClass": 6, "createProject": 5, "createBatch": 7,
 		"updSell": 6, "cancelSell": 5, "bridgeReceive": 5, "defineResolver": 4, "registerResolver": 6, "anchor": 1, "unimplemented": 2,
 		"addCreditType": 2, "updClassFee": 2, "addBridgeChain": 2, "removeBridgeChain": 2, "updBasketFee": 2, "updDateCriteria": 3, "addDenom": 2, "removeDenom": 2, "setFeeParams": 2, "sendFromPool": 3})
 	profC12 = eng.ProfileFull("C12", map[string]int{"sell": 16, "updSell": 10, "buy": 10, "block": 18, "cancelSell": 3})
 )
+
+func withPrelude(p *eng.Profile, kinds ...string) *eng.Profile {
+	p.Prelude = kinds
+	return p
+}
 
 func monsC01() []eng.Monitor { return []eng.Monitor{&mon.C01{}} }
 func monsC02() []eng.Monitor { return []eng.Monitor{&mon.C02{}} }
